@@ -106,6 +106,27 @@ def strategy(tier):
     return _with_rename()
 
 
+def enumerated(tier):
+    """history folders whose names need XML escaping where they reappear (manifest names in chain and collection files),
+    written two and three times; empty roots and empty nested histories with and without -n"""
+    for name in ("R&D <final> \"cut\"", "a'b&amp;c", "plain"):
+        for child in ("Reel & Co", "x<y>", "sub"):
+            tree = {child: {"c.mov": "child"}, "t.mov": "top"}
+            st_ = [{"op": "create", "root": child, "formats": ["md5"], "flags": [], "extra": []},
+                   {"op": "create", "root": "", "formats": ["md5"], "flags": [], "extra": []},
+                   {"op": "flatten", "root": "", "dest": "d", "extra": []},
+                   {"op": "create", "root": "", "formats": ["c4"], "flags": ["-n"], "extra": []},
+                   {"op": "flatten", "root": "", "dest": "d", "extra": []},
+                   {"op": "create_sf", "root": "", "formats": ["md5"], "flags": [], "extra": [], "sf": [child + "/c.mov"]},
+                   {"op": "flatten", "root": child, "dest": "d", "extra": []}]
+            yield {"root": name, "tree": tree, "steps": st_, "spell": "abs"}
+    for n in ([], ["-n"]):
+        yield {"root": "empty root", "tree": {}, "spell": "abs", "steps": [{"op": "create", "root": "", "formats": ["md5"], "flags": n, "extra": []}, {"op": "create", "root": "", "formats": ["md5"], "flags": n, "extra": ["-i", "*.x"]}]}
+        yield {"root": "empty child", "tree": {"kid": {}, "f": "x", "all ignored": {"a.tmp": "1"}}, "spell": "abs", "steps": [
+            {"op": "create", "root": "kid", "formats": ["md5"], "flags": n, "extra": []}, {"op": "create", "root": "all ignored", "formats": ["md5"], "flags": n, "extra": ["-i", "*.tmp"]},
+            {"op": "create", "root": "", "formats": ["md5"], "flags": n, "extra": []}]}
+
+
 def _walk_files(top):
     out = {}
     if os.path.isdir(top):
